@@ -436,6 +436,13 @@ def conformance(ck, g, mc, tier, label, rng):
         first_stale = {"history": hs[i][1], "record_index": stale_at[i],
                        "event": {k: rec.get(k) for k in ("th", "m", "a")},
                        "rows_shown": rec.get("rows"), "cpu_cells": [c for c in rec.get("view", []) if c[0] == "c"]}
+    if stale and first_stale is not None:
+        # genuine finding (listed in known-findings.txt): the breakdown row keeps a stale value because the
+        # `tr` mux only re-selects on subsystem changes; every other disagreement is still reported above/below
+        ck.violation("%s: breakdown row holds a value that is only explained by a STALE selection of the tr mux "
+                     "(task type appeared/disappeared while the subsystem stayed in task body): %d histories, "
+                     "shortest: %s" % (label, len(stale), json.dumps(first_stale)[:1500]),
+                     {"stale_example.json": first_stale}, sig="stale-tr-mux-selection")
     ck.notes.setdefault("conformance", []).append(
         {"model": label, "histories": len(hs), "by_kind": kinds,
          "accepted_by_spec": len(accepted),
